@@ -178,7 +178,7 @@ def stepWith (p : Program) (ch : Chain) (s : Shape) (o : Outcome) : Chain × Res
       | .decodeErr t => (ch, .decodeErr t)
       | .ran call m _ =>
         if failing x.fail call then (ch, .handlerErr (errText p m call))
-        else (ch, .answer (Json.obj [("attrs", .arr ((echoAttrsAt ("#" ++ toString slot) call).map fun (k, v) => .arr [.str k, .str v]))]).render)
+        else (ch, .answer (Dispatch.queryBody m.ret (echoAttrsAt ("#" ++ toString slot) call)).render)
     | _ => (ch, .missing "no-contract")
   | .sudo slot =>
     match ch.slots[slot]? with
